@@ -265,12 +265,12 @@ Proof. vm_compute. reflexivity. Qed.
 (* The lookup-or-create of OnRequest is one atomic step (queuesMutex.Lock):
    whatever the schedule, at most one queue is ever constructed for a key and
    every request that finished its lookup holds exactly the stored one. *)
-Theorem C10_plugin_one_queue_per_remedy : forall acts k,
-  let ks := pget k (prun Atomic pinit acts) in
+Theorem C10_plugin_one_queue_per_remedy : forall tv acts k,
+  let ks := pget k (prun tv Atomic pinit acts) in
   (length (insts ks) <= 1)%nat /\
   (forall q, In q (preqs ks) -> q_inst q = cur ks /\ cur ks <> None).
 Proof.
-  intros acts k ks. unfold ks. rewrite pget_prun, pget_pinit.
+  intros tv acts k ks. unfold ks. rewrite pget_prun, pget_pinit.
   split; [apply ONE_length, ONE_krun|apply BOUND_krun].
 Qed.
 Print Assumptions C10_plugin_one_queue_per_remedy.
@@ -278,28 +278,28 @@ Print Assumptions C10_plugin_one_queue_per_remedy.
 (* ---- (a) releases per remedy and window <= quota (every schedule) ---- *)
 
 (* Grants of ALL queues ever constructed for the key, counted in one window. *)
-Definition C10_plugin_release_bound_for (v : variant) : Prop :=
+Definition C10_plugin_release_bound_for (tv : ttl_variant) (v : variant) : Prop :=
   forall acts k w,
-    kgrants w (insts (pget k (prun v pinit acts))) <= Z.max 0 (kquota k).
+    kgrants w (insts (pget k (prun tv v pinit acts))) <= Z.max 0 (kquota k).
 
-Theorem C10_plugin_release_bound : C10_plugin_release_bound_for Atomic.
-Proof. intros acts k w. rewrite pget_prun, pget_pinit. apply release_bound_atomic. Qed.
+Theorem C10_plugin_release_bound : forall tv, C10_plugin_release_bound_for tv Atomic.
+Proof. intros tv acts k w. rewrite pget_prun, pget_pinit. apply release_bound_atomic. Qed.
 Print Assumptions C10_plugin_release_bound.
 
 (* With a monotone clock: every grant of the remedy lies in the aligned window
    it was counted in, so the requests of one remedy released at instants of one
    aligned window are at most the quota — the form the monitor checks. *)
-Theorem C10_plugin_release_bound_by_instant : forall acts k t0,
+Theorem C10_plugin_release_bound_by_instant : forall tv acts k t0,
   0 < kwsize k -> pmonotone t0 acts = true ->
-  let ks := pget k (prun Atomic pinit acts) in
+  let ks := pget k (prun tv Atomic pinit acts) in
   (forall s g, In s (insts ks) -> In g (log s) ->
      gwin g = uend (ccfg k 0) (gat g) /\ gwin g - kwsize k <= gat g < gwin g) /\
   (forall w, kgrants_at (ccfg k 0) w (insts ks) <= Z.max 0 (kquota k)).
 Proof.
-  intros acts k t0 W M ks. unfold ks. rewrite pget_prun, pget_pinit.
+  intros tv acts k t0 W M ks. unfold ks. rewrite pget_prun, pget_pinit.
   pose proof (proj_monotone k acts t0 M) as KM. split.
-  - intros s g Is Ig. now apply (grants_in_window Atomic k (proj k acts) t0 W KM s g).
-  - intro w. now apply (release_bound_at_atomic k (proj k acts) t0).
+  - intros s g Is Ig. now apply (grants_in_window tv Atomic k (proj k acts) t0 W KM s g).
+  - intro w. now apply (release_bound_at_atomic tv k (proj k acts) t0).
 Qed.
 Print Assumptions C10_plugin_release_bound_by_instant.
 
@@ -309,15 +309,15 @@ Print Assumptions C10_plugin_release_bound_by_instant.
    verdict of its requests) after ANY plugin-level schedule is the state its own
    actions alone produce: nothing a request of another remedy (or of a remedy
    without configuration) does changes it. *)
-Theorem C10_plugin_frame : forall v acts k,
-  pget k (prun v pinit acts) = krun v k kinit (proj k acts).
+Theorem C10_plugin_frame : forall tv v acts k,
+  pget k (prun tv v pinit acts) = krun tv v k kinit (proj k acts).
 Proof. intros. now rewrite pget_prun, pget_pinit. Qed.
 Print Assumptions C10_plugin_frame.
 
-Corollary C10_plugin_frame_verdicts : forall v acts1 acts2 k rid,
+Corollary C10_plugin_frame_verdicts : forall tv v acts1 acts2 k rid,
   proj k acts1 = proj k acts2 ->
-  pverdict (prun v pinit acts1) (Some k) rid = pverdict (prun v pinit acts2) (Some k) rid.
-Proof. intros v acts1 acts2 k rid E. simpl. now rewrite !C10_plugin_frame, E. Qed.
+  pverdict (prun tv v pinit acts1) (Some k) rid = pverdict (prun tv v pinit acts2) (Some k) rid.
+Proof. intros tv v acts1 acts2 k rid E. simpl. now rewrite !C10_plugin_frame, E. Qed.
 Print Assumptions C10_plugin_frame_verdicts.
 
 (* ---- (c) the verdict mapping (every schedule, both variants) ---- *)
@@ -326,8 +326,8 @@ Print Assumptions C10_plugin_frame_verdicts.
    (b, t) to Enqueue: NoOp iff b = true, the early response iff b = false, and
    then with the ResponseStatusCode of the configuration of that very call.
    A request the queue has answered always has its verdict (third part). *)
-Theorem C10_plugin_verdict : forall v acts k rid,
-  let ks := pget k (prun v pinit acts) in
+Theorem C10_plugin_verdict : forall tv v acts k rid,
+  let ks := pget k (prun tv v pinit acts) in
   (forall vd t, kverdict ks rid = Some (vd, t) <->
      exists b sc, kanswer ks rid = Some (b, t) /\ kstatus ks rid = Some sc /\
                   vd = (if b then VNoOp else VEarly sc)) /\
@@ -335,9 +335,9 @@ Theorem C10_plugin_verdict : forall v acts k rid,
      exists p hdrs t now, In (PK k (KEnq rid p hdrs t now)) acts /\ p_status p = sc) /\
   (forall b t, kanswer ks rid = Some (b, t) -> exists vd, kverdict ks rid = Some (vd, t)).
 Proof.
-  intros v acts k rid ks. split; [intros; apply kverdict_spec|]. split.
+  intros tv v acts k rid ks. split; [intros; apply kverdict_spec|]. split.
   - intros sc H. unfold ks in H. rewrite C10_plugin_frame in H.
-    destruct (kstatus_from_schedule _ _ _ _ _ H) as [p [hdrs [t [now [I E]]]]].
+    destruct (kstatus_from_schedule _ _ _ _ _ _ H) as [p [hdrs [t [now [I E]]]]].
     exists p, hdrs, t, now. split; [now apply proj_In|exact E].
   - intros b t A. assert (S : kstatus ks rid <> None).
     { apply answer_has_status; [|congruence]. unfold ks. rewrite C10_plugin_frame. apply ENQD_krun. }
@@ -349,7 +349,7 @@ Print Assumptions C10_plugin_verdict.
 (* ---- the non-atomic variant over-releases ---- *)
 
 Definition key1 : qkey := (1, 1, 5).
-Definition par1 : par := {| p_ttl_h := 60; p_qsize := 10; p_status := 429; p_prz := None |}.
+Definition par1 : par := {| p_ttl_e := 240; p_qsize := 10; p_status := 429; p_prz := None |}.
 
 (* Split: both first requests of the remedy miss the lookup before either has
    stored its queue; each constructs, stores and uses its own queue, whose window
@@ -359,7 +359,7 @@ Definition double_construction : list paction :=
    PK key1 (KStore 1 10); PK key1 (KStore 2 11);
    PK key1 (KEnq 1 par1 [] 11 12); PK key1 (KEnq 2 par1 [] 12 13)].
 
-Theorem C10_plugin_release_bound_split_refuted : ~ C10_plugin_release_bound_for Split.
+Theorem C10_plugin_release_bound_split_refuted : ~ C10_plugin_release_bound_for code_ttl Split.
 Proof.
   intro H. specialize (H double_construction key1 (5 * second)).
   revert H. vm_compute. intro H. apply H. reflexivity.
@@ -369,7 +369,7 @@ Print Assumptions C10_plugin_release_bound_split_refuted.
 (* the same schedule, HEAD against the variant: at HEAD (KStore is not a step
    of the code) request 2 finds the queue of request 1 and waits *)
 Example C10_plugin_double_construction_outcomes :
-  let res v := let s := prun v pinit double_construction in
+  let res v := let s := prun code_ttl v pinit double_construction in
                (length (insts (pget key1 s)), kgrants (5 * second) (insts (pget key1 s)),
                 pverdict s (Some key1) 1, pverdict s (Some key1) 2) in
   pmonotone 0 double_construction = true /\
@@ -385,8 +385,8 @@ Example C10_plugin_nontrivial :
   let ka : qkey := (1, 1, 1) in
   let kb : qkey := (2, 1, 1) in
   let z := {| hname := [120]; groups := [([97], 0); ([98], 5)] |} in
-  let pa := {| p_ttl_h := 4; p_qsize := 2; p_status := 429; p_prz := Some z |} in
-  let pb := {| p_ttl_h := 3; p_qsize := 1; p_status := 503; p_prz := None |} in
+  let pa := {| p_ttl_e := 16; p_qsize := 2; p_status := 429; p_prz := Some z |} in
+  let pb := {| p_ttl_e := 12; p_qsize := 1; p_status := 503; p_prz := None |} in
   let acts :=
     [PK ka (KLookup 1 0); PK ka (KEnq 1 pa [([120], [98])] 0 0);
      PK kb (KLookup 2 1); PK kb (KEnq 2 pb [] 1 1);
@@ -398,7 +398,7 @@ Example C10_plugin_nontrivial :
      PK ka (KTick 0%nat second); PK ka (KR 4 RReturn second);
      PK kb (KTick 0%nat second); PK kb (KR 7 RReturn second);
      PK ka (KTick 0%nat (2 * second)); PK ka (KR 3 RReturn (2 * second))] in
-  let s := prun Atomic pinit acts in
+  let s := prun code_ttl Atomic pinit acts in
   (pmonotone 0 acts,
    map (fun kr => pverdict s (fst kr) (snd kr))
        [(Some ka, 1); (Some kb, 2); (Some ka, 3); (Some ka, 4); (Some ka, 5); (None, 6); (Some kb, 7)],
@@ -409,3 +409,50 @@ Example C10_plugin_nontrivial :
     Some (VEarly 429, 4); Some (VMissingConfig, 5); Some (VNoOp, second)],
    1, 1).
 Proof. vm_compute. reflexivity. Qed.
+
+(* ---- the time-to-live handed to the queue is the configured one ---- *)
+
+(* After any plugin-level schedule with a monotone clock (either lookup
+   variant): if the TTL branch of request rid can be taken at clock reading
+   [now], then rid entered Enqueue (its KEnq) at least its CONFIGURED
+   time-to-live (ttl_seconds of that very call, [cfg_ttl_ns]) before [now].
+   With C10_plugin_verdict: a request is refused for its TTL only when its
+   time-to-live really elapsed. *)
+Definition C10_plugin_ttl_respected_for (tv : ttl_variant) : Prop :=
+  forall v pre k t0 rid now,
+    0 < kwsize k -> pmonotone t0 pre = true ->
+    kstep tv v k (pget k (prun tv v pinit pre)) (KR rid RTtl now) <> None ->
+    exists p hdrs t enq, In (PK k (KEnq rid p hdrs t enq)) pre /\ enq + cfg_ttl_ns p <= now.
+
+(* the code: time.Duration(float64(TTLSeconds) * float64(time.Second)) *)
+Theorem C10_plugin_ttl_respected : C10_plugin_ttl_respected_for TtlExact.
+Proof. intros v pre k t0 rid now W M H. exact (ttl_branch_origin TtlExact v pre k t0 rid now W M H). Qed.
+Print Assumptions C10_plugin_ttl_respected.
+
+(* F-C10c (fixed in /repo): time.Duration(TTLSeconds) * time.Second truncates
+   ttl_seconds 1.5 to 1 s: request 2 waits from instant 1 and can be refused
+   "for its TTL" at 1 + 1 s, half a second before its time-to-live elapsed. *)
+Definition par15 : par := {| p_ttl_e := 12; p_qsize := 10; p_status := 429; p_prz := None |}.
+Definition truncated_ttl : list paction :=
+  [PK key1 (KLookup 1 0); PK key1 (KEnq 1 par15 [] 0 0);
+   PK key1 (KLookup 2 1); PK key1 (KEnq 2 par15 [] 1 1); PK key1 (KR 2 RPark 1)].
+
+Theorem C10_plugin_ttl_respected_truncated_refuted : ~ C10_plugin_ttl_respected_for TtlTruncated.
+Proof.
+  intro H.
+  destruct (H Atomic truncated_ttl key1 0 2 (1 + second)) as [p [hdrs [t [enq [I L]]]]];
+    [reflexivity|reflexivity|vm_compute; discriminate|].
+  simpl in I.
+  destruct I as [I|[I|[I|[I|[I|[]]]]]]; try discriminate I.
+  injection I as E1 E2 E3 E4. subst p enq. vm_compute in L. apply L. reflexivity.
+Qed.
+Print Assumptions C10_plugin_ttl_respected_truncated_refuted.
+
+(* the same schedule under both conversions: when can request 2 be refused for its TTL? *)
+Example C10_plugin_ttl_outcomes :
+  let can tv inst := match kstep tv Atomic key1 (pget key1 (prun tv Atomic pinit truncated_ttl)) (KR 2 RTtl inst) with
+                   | Some _ => true | None => false end in
+  pmonotone 0 truncated_ttl = true /\
+  (can TtlTruncated (1 + second), can TtlExact (1 + second),
+   can TtlExact (1 + 12 * eighth - 1), can TtlExact (1 + 12 * eighth)) = (true, false, false, true).
+Proof. vm_compute. repeat split. Qed.
